@@ -31,6 +31,11 @@ P = {
  COMMON_ASSUME + "models of strings.Split/Trim as recursive definitions; A-JSR (which text a group captures); newPathExpression/nameOfFunction trusted.",
  ["which of two tokens declaring the same name wins under the default processor", "the round-trip formulation 'substituting back reproduces the path' (the per-variable statement is proved instead)", "what a JSR311 group captures (A-JSR)"],
  TECH),
+"C05": (True,
+ "Deductive proof that sortedMimes returns the ranking of the usable ranges of the Accept header: the list equals, entry by entry, a ranking witness (media type and weight of each range taken from the header grammar: text before the first ';' and the value of the q parameter wherever it stands among the parameters, both without the optional whitespace around ',' ';' '='), and inductive lemmas prove about that witness what the statement asks — every position holds a usable range, every usable range has exactly one position, greater q first and header order on ties; that insertMime places an entry behind every entry of at least its quality and before the first entry of lower quality and keeps the order of the others; and that Response.EntityWriter, when every produced media type has a writer registered under its own name, returns the writer of the range the header ranks highest among the ranges the route can answer ('*/*' standing for the first Produces entry), never answers 'no writer' when some usable range can be answered from the Produces list, and is total.",
+ COMMON_ASSUME + "strconv.ParseFloat as a deterministic uninterpreted function into the reals (NaN and infinities excluded: a q-value of NaN would compare false both ways); models of strings.Split/Trim; accessorAt's contract (proved, C16).",
+ ["the Content-Type header itself is set by the registered accessor's Write (user code for custom registrations; the built-in writeJSON/writeXML set the content type they were registered with)", "ranges whose q-value is not a number rank nowhere (then the router may admit a request on Accept grounds that the entity writer answers from its fallbacks: the substring lookup over the registry map, DefaultResponseMimeType, the first produced type) — documented as D17, not checked", "q=0 is treated as a weight like any other"],
+ TECH + ", inductive lemmas"),
 "C06": (True,
  "Deductive proof of FilterChain.ProcessFilter's contract (exactly one dynamic call: the filter at the old index with the index advanced first, or the target once filters are exhausted; same request/response passed) including exceptional exits, of dispatch's construction of the chain (container filters, then service filters, then route filters, then the route function; error path runs container filters only), of HandleWithFilter's chain (exactly the container filters around the plain handler), and of the net/http middleware adapter closure.",
  COMMON_ASSUME + "A-CB (callbacks do not reconfigure framework objects).",
@@ -103,7 +108,6 @@ P = {
  TECH + ", frame conditions"),
 }
 NA = {
-"C05": "the deciding function Response.EntityWriter ranks by float q-values through insertMime and sortedMimes and falls back through accessorAt's map-ordered substring lookup. What is proved and counted under other properties: insertMime's placement (behind every entry of at least its quality, before the first entry of lower quality, the others keep their order; C02), totality of sortedMimes (C02), the router-side admission matchesAccept (C01), accessorAt's functional contract (C16). What did not discharge: that the placement keeps a list sorted (neither inside insertMime across its three nested appends nor, from its postconditions, in sortedMimes), so no ordering contract for sortedMimes and none for EntityWriter; the response Content-Type itself is written by the registered accessor (user code). D3 and D15 were found and fixed on the way. Not claimed.",
 }
 
 checks=[]
